@@ -1,75 +1,3 @@
-//! `vh` — verification harness for expression_engine (property-based testing / fuzzing).
-//!   vh run <ID> [--tier quick|thorough] [--seed N]      parent: shards, evidence, verdict
-//!   vh shard <ID> --tier T --seed N --index I --of K --out DIR
-//!   vh replay <ID> <file>
-//!   vh worker <kind>                                     one scenario on stdin, observations on stdout
-mod bigdec;
-mod eng;
-mod handlers;
-mod gen_sem;
-mod gen_soup;
-mod gen_syntax;
-mod model;
-mod props;
-mod runner;
-mod src;
-mod syntax;
-
-use runner::*;
-use std::path::PathBuf;
-
-fn arg_after(args: &[String], flag: &str) -> Option<String> {
-    args.iter().position(|a| a == flag).and_then(|i| args.get(i + 1).cloned())
-}
-
 fn main() {
-    let args: Vec<String> = std::env::args().collect();
-    let exe = std::env::current_exe().expect("current exe");
-    if args.len() < 3 {
-        eprintln!("usage: vh run|shard|replay|worker <ID|kind> ...");
-        std::process::exit(2);
-    }
-    let mode = args[1].as_str();
-    if mode == "worker" {
-        std::process::exit(props::worker_main(&args[2], &args[3..]));
-    }
-    let prop = match props::all().into_iter().find(|p| p.id == args[2]) {
-        Some(p) => p,
-        None => {
-            eprintln!("unknown property {}", args[2]);
-            std::process::exit(2);
-        }
-    };
-    let tier = match arg_after(&args, "--tier").or_else(|| std::env::var("VERIF_TIER").ok()).as_deref() {
-        Some("thorough") => Tier::Thorough,
-        _ => Tier::Quick,
-    };
-    let seed: u64 = arg_after(&args, "--seed")
-        .or_else(|| std::env::var("VERIF_SEED").ok())
-        .and_then(|s| s.trim().parse().ok())
-        .unwrap_or(1);
-    let code = match mode {
-        "run" => parent_main(prop, tier, seed, exe),
-        "shard" => {
-            let env = Env {
-                id: prop.id,
-                tier,
-                seed,
-                shard: arg_after(&args, "--index").and_then(|s| s.parse().ok()).unwrap_or(0),
-                of: arg_after(&args, "--of").and_then(|s| s.parse().ok()).unwrap_or(1),
-                exe,
-                known: load_known(prop.id),
-                strict: false,
-                profile: PROFILE,
-                out_dir: PathBuf::from(arg_after(&args, "--out").unwrap_or_else(|| "/verif/out/run/tmp".into())),
-            };
-            shard_main(prop, env)
-        }
-        "replay" => replay_main(prop, args.get(3).map(|s| s.as_str()).unwrap_or(""), exe),
-        _ => {
-            eprintln!("unknown mode {}", mode);
-            2
-        }
-    };
-    std::process::exit(code);
+    vh::cli_main()
 }
